@@ -2,45 +2,74 @@
   Robotools.Proofs.DistBlock — `compileDistribute` is a safe block (C03) that re-establishes the replay/tracking
   match on success (C01), under the side conditions `Dist.DistOK`.
 -/
-import Robotools.Proofs.DistLemmas
+import Robotools.Proofs.DistAmt
 namespace Robotools
 namespace Dist
-open RP
+open RP Amt C05
 
-theorem safe_compileDistribute {dev : Device} {labs₀ : List Labware} {I} (hwf : WFI I) (cfg : Cfg)
+/-- What `dist_core` proves of the micro-operation list of one `distribute`: from a state whose records replay to
+    `st` mirroring the tracked volumes, the records present after the run — wherever it stops — replay; when it
+    runs to the end the replay mirrors the tracked volumes again, and (for a positive volume, from a good state in
+    which the replay also mirrors the component amounts) the component amounts too. -/
+def DistP (dev : Device) (labs₀ : List Labware) (I : List (String × Geom × Nat)) (a : DistArgs)
+    (ms : List Micro) : Prop :=
+  ∀ w, info w = I → ∀ st, (RState.ofLabs labs₀).run dev w.recs = some st → Match st w →
+    Replayable dev labs₀ (w.exec ms).1 ∧ ((w.exec ms).2 = none →
+      ∃ st', (RState.ofLabs labs₀).run dev (w.exec ms).1.recs = some st' ∧ Match st' (w.exec ms).1
+        ∧ (Good w → AmtOK st w → 0 < a.vol.q → AmtOK st' (w.exec ms).1 ∧ Good (w.exec ms).1))
+
+theorem distP_fail {dev labs₀ I a} (e : Err) : DistP dev labs₀ I a [.fail e] := by
+  intro w _ st hrun _
+  rw [World.exec_cons_error (e := e) _ (by simp [World.micro])]
+  exact ⟨⟨st, hrun⟩, fun h => by cases h⟩
+
+theorem exec_emits_labs (w : World) (rs : List Rec) : (w.exec (rs.map Micro.emit)).1.labs = w.labs := by
+  induction rs generalizing w with
+  | nil => rfl
+  | cons r rest ih =>
+    rw [List.map_cons, World.exec_cons_ok (w' := { w with recs := w.recs ++ [r] }) _ (by simp [World.micro])]
+    exact ih _
+
+theorem exec_comment_labs (w : World) (c : Option String) : (w.exec (commentMicros c)).1.labs = w.labs := by
+  unfold commentMicros exceptMicros
+  cases commentRecs c with
+  | error e => simp only; rw [World.exec_cons_error (e := e) _ (by simp [World.micro])]
+  | ok rs => simp only; exact exec_emits_labs w rs
+
+theorem dist_core {dev : Device} {labs₀ : List Labware} {I} (hwf : WFI I) (cfg : Cfg)
     (hdev : cfg.dev = dev) (S D : Labware) (a : DistArgs)
     (hIs : ∃ n, I[a.src]? = some (S.name, S.geom, n)) (hId : ∃ n, I[a.dst]? = some (D.name, D.geom, n))
-    (hok : DistOK dev S D a) : SafeBlock dev labs₀ I (compileDistribute cfg S D a) := by
+    (hok : DistOK dev S D a) : DistP dev labs₀ I a (compileDistribute cfg S D a) := by
   obtain ⟨hne, hsrcok, hc0, hnodup⟩ := hok
   cases hvr : S.geom.vrows with
-  | none => unfold compileDistribute; simp only [hvr]; exact single_neutral _ rfl
+  | none => unfold compileDistribute; simp only [hvr]; exact distP_fail _
   | some vr =>
   by_cases hvolM : cfg.maxVolume < a.vol.q
-  · unfold compileDistribute; simp only [hvr, hvolM, if_true]; exact single_neutral _ rfl
+  · unfold compileDistribute; simp only [hvr, hvolM, if_true]; exact distP_fail _
   cases hps : (a.dstWells.flattenF.mapM fun w => cfg.dev.pos D.geom w) with
   | error e =>
-    unfold compileDistribute; simp only [hvr, hvolM, if_false, hps, exceptMicros]; exact single_neutral _ rfl
+    unfold compileDistribute; simp only [hvr, hvolM, if_false, hps, exceptMicros]; exact distP_fail _
   | ok ps =>
   by_cases hndw : a.dstWells.flattenF.Nodup
   swap
   · unfold compileDistribute
     simp only [hvr, hvolM, if_false, hps, exceptMicros, hndw, not_false_eq_true, if_true]
-    exact single_neutral _ rfl
+    exact distP_fail _
   cases hhead : (ps.mergeSort (· ≤ ·)).head? with
   | none =>
-    unfold compileDistribute; simp only [hvr, hvolM, if_false, hps, exceptMicros, hndw, not_true_eq_false, hhead]; exact single_neutral _ rfl
+    unfold compileDistribute; simp only [hvr, hvolM, if_false, hps, exceptMicros, hndw, not_true_eq_false, hhead]; exact distP_fail _
   | some s =>
   cases hlast : (ps.mergeSort (· ≤ ·)).getLast? with
   | none =>
     unfold compileDistribute; simp only [hvr, hvolM, if_false, hps, exceptMicros, hndw, not_true_eq_false, hhead, hlast]
-    exact single_neutral _ rfl
+    exact distP_fail _
   | some e =>
   by_cases hc1 : a.srcCol < S.geom.cols
   swap
   · have hneg : ¬ a.srcCol < 0 := by omega
     unfold compileDistribute
     simp only [hvr, hvolM, if_false, hps, exceptMicros, hndw, not_true_eq_false, hhead, hlast, hc0, hc1, hneg, and_false, false_and]
-    exact single_neutral _ rfl
+    exact distP_fail _
   -- the main branch
   have heq : compileDistribute cfg S D a =
       compileRemove S a.src (Arr.scalar (wellId 0 a.srcCol.toNat))
@@ -71,8 +100,7 @@ theorem safe_compileDistribute {dev : Device} {labs₀ : List Labware} {I} (hwf 
     rw [h0] at hF
     cases hF
     simp at hhead
-  intro w hI hinv
-  obtain ⟨st, hrun, hM⟩ := hinv
+  intro w hI st hrun hM
   -- everything before the record is quiet
   set A := compileRemove S a.src (Arr.scalar (wellId 0 c)) (Arr.scalar (a.vol.q * (n : Rat))) (some a.label) with hA
   set B := (match (match S.geom.resolveFlat (wellId 0 c) with
@@ -247,7 +275,6 @@ theorem safe_compileDistribute {dev : Device} {labs₀ : List Labware} {I} (hwf 
   have hrunF : (RState.ofLabs labs₀).run dev (w1.recs ++ [Rec.rd f]) = some st' := by
     rw [run_append, hrun1, Option.bind_some]
     simp only [RState.run, hint, Option.bind_some]
-  refine ⟨⟨st', hrunF⟩, fun _ => ⟨st', hrunF, ?_⟩⟩
   -- the replay mirrors the tracking again
   have hMC : Match st' (wC0.setLab a.dst (Dn.log (some a.label))) := by
     show List.Forall₂ LabMatch st'.labs ((wC0.setLab a.dst (Dn.log (some a.label))).labs)
@@ -260,9 +287,136 @@ theorem safe_compileDistribute {dev : Device} {labs₀ : List Labware} {I} (hwf 
     · rw [hRdS.minV]; exact hssD.minV.symm
     · rw [hRdS.maxV]; exact hssD.maxV.symm
     · exact hRdV
-  show Match st' { w1 with recs := w1.recs ++ [Rec.rd f] }
-  have : Match st' w1 := by rw [hw1]; exact hMcm st' hMC
-  exact this
+  have hMatchF : Match st' { w1 with recs := w1.recs ++ [Rec.rd f] } := by
+    show Match st' { w1 with recs := w1.recs ++ [Rec.rd f] }
+    have : Match st' w1 := by rw [hw1]; exact hMcm st' hMC
+    exact this
+  refine ⟨⟨st', hrunF⟩, fun _ => ⟨st', hrunF, hMatchF, ?_⟩⟩
+  -- the component amounts
+  intro hG hA hpos
+  obtain ⟨hS0v, hS0c, hS0m⟩ := good_get hG hS0
+  obtain ⟨hD0v, hD0c, hD0m⟩ := good_get hG hD0
+  have hnpos : 0 < n := by
+    rw [hn]
+    cases hl : ps.mergeSort (· ≤ ·) with
+    | nil => rw [hl] at hhead; cases hhead
+    | cons _ _ => simp
+  have hnv : 0 ≤ a.vol.q * (n : Rat) := mul_nonneg hv (by exact_mod_cast Nat.zero_le _)
+  obtain ⟨hgeS, hvolsS, _, _, _, _, _, hcompS⟩ := Labware.removeStep_fields hstep
+  obtain ⟨hS1c, _, hvolne⟩ := compValid_removeStep S0 S1 i _ hS0c hstep
+  have hS1good : C02.LabValid S1 ∧ CompValid S1 ∧ Mixed S1 :=
+    ⟨C02.removeStep_valid S0 S1 i _ hnv hS0v hstep, hS1c, mixed_removeStep hS0m hnv hS0v.min_nonneg hstep⟩
+  have hS1Lgood := (sameLiquid_log S1 (some a.label)).good hS1good
+  have hcarry : wB.carry = S1.wellComp i := by rw [← hwBdef]; rfl
+  have htot : Mix.total (S1.wellComp i) = 1 := by
+    rw [Mix.wellComp_eq, Mix.total_wc _ _ hS1c.nonneg, hcompS, ← fracSum_eq]
+    rcases hS0m i hi with h1 | ⟨_, h0⟩
+    · exact h1
+    · exfalso
+      have hge := hgeS
+      rw [h0] at hge
+      have hmn := hS0v.min_nonneg
+      have hpp : 0 < a.vol.q * (n : Rat) := mul_pos hpos (by exact_mod_cast hnpos)
+      apply hge; linarith
+  have hfrac : ∀ k, compOf (S1.wellComp i) k = S0.frac i k := fun k => by
+    rw [(wellComp_spec S1 i hS1c k).1, (removeStep_frac S0 S1 i _ hstep).2 i k]
+  -- the additions
+  have hgD0 : GeomOK D0.geom D0.vols.length := geomOK_of_mem hI hwf hD0
+  have hjslt : ∀ j ∈ js, j < D0.vols.length := by
+    obtain ⟨hjseq, hall⟩ := js_eq_map_wellIdx hgD0 (mapM_pos_spec hps') hjs'
+    intro j hj
+    rw [hjseq] at hj
+    obtain ⟨p, hp, rfl⟩ := List.mem_map.1 hj
+    obtain ⟨rc, hwo, hlt⟩ := hall p hp
+    simp only [wellIdx, hwo]; exact hlt
+  obtain ⟨Dn2, hlabs2, hDnGood, _, hDnamt⟩ :=
+    exec_ads_amt a.dst a.vol.q hpos js wB wC0 D0 hD0B ⟨hD0v, hD0c, hD0m⟩ hjslt
+      (by rw [hcarry]; exact fun p hp => le_of_lt (Mix.wc_pos _ _ p hp)) (by rw [hcarry]; exact htot)
+      (by rw [← hadsEq]; exact hxads)
+  have hDn2 : Dn2 = Dn := by
+    have h1 : wC0.labs[a.dst]? = some Dn2 := by
+      rw [hlabs2]; exact List.getElem?_set_self (List.getElem?_eq_some_iff.1 hD0B).1
+    rw [hDnat] at h1; exact (Option.some.inj h1).symm
+  subst hDn2
+  have hDnLgood := (sameLiquid_log Dn2 (some a.label)).good hDnGood
+  -- the labware of the final world
+  have hFlabs : w1.labs = (w.labs.set a.src (S1.log (some a.label))).set a.dst (Dn2.log (some a.label)) := by
+    rw [hw1, hCm, exec_comment_labs]
+    simp only [World.setLab, hlabsC0, hwBlabs, List.set_set]
+  -- the replay, with amounts
+  obtain ⟨st2, Rs2, Rd2, hint2, hlabsA, hSw, hDw⟩ :=
+    interp_rd_amt (dev := dev) hM hA hI hwf hne hS0 hD0 c i hi
+      (by intro m hm; rw [hgS, hic]; exact hsrcok vr hvr c hccols m (by rw [← hgS]; exact hm))
+      hrows hps' hjs' hnd hhead hlast a.vol hv hrm' haddC f
+      (by rw [hfdef, hrdargs]; simp only [rdFields, distRD]; exact hnS.symm)
+      (by rw [hfdef, hrdargs]; simp only [rdFields, distRD]; exact hnD.symm)
+      (by rw [hfdef, hrdargs]; simp only [rdFields, distRD]; rw [hgS, ← hcc])
+      (by rw [hfdef, hrdargs]; simp only [rdFields, distRD]; rw [hgS])
+      (by rw [hfdef, hrdargs]; simp only [rdFields, distRD])
+      (by rw [hfdef, hrdargs]; simp only [rdFields, distRD])
+      (by rw [hfdef, hrdargs]; simp only [rdFields, distRD])
+      (by rw [hfdef, hrdargs]; simp only [rdFields, distRD])
+      hS0v.min_nonneg
+  have hst : st2 = st' := Option.some.inj (hint2.symm.trans hint)
+  subst hst
+  have hlenM : st.labs.length = w.labs.length := List.Forall₂.length_eq hM
+  have hsrcW : a.src < w.labs.length := (List.getElem?_eq_some_iff.1 hS0).1
+  have hdstW : a.dst < w.labs.length := (List.getElem?_eq_some_iff.1 hD0).1
+  have hRs2at : st2.labs[a.src]? = some Rs2 := by
+    rw [hlabsA, List.getElem?_set_ne (fun e => hne e.symm), List.getElem?_set_self (by rw [hlenM]; exact hsrcW)]
+  have hS1Lat : ({ w1 with recs := w1.recs ++ [Rec.rd f] } : World).labs[a.src]? = some (S1.log (some a.label)) := by
+    show w1.labs[a.src]? = _
+    rw [hFlabs, List.getElem?_set_ne (fun e => hne e.symm), List.getElem?_set_self hsrcW]
+  obtain ⟨Rx, hRx, hRxM⟩ := forall₂_getElem? hMatchF hS1Lat
+  rw [hRs2at] at hRx; cases hRx
+  have hRsAmt : LabAmt Rs2 (S1.log (some a.label)) := by
+    intro j wl hj
+    obtain ⟨hndw, haw⟩ := hSw j wl hj
+    refine ⟨hndw, fun k => ?_⟩
+    rw [haw k]
+    have hvw : wl.vol = S1.vol j := hRxM.vol_eq hj
+    have hamL : amount (S1.log (some a.label)) j k = S1.frac j k * S1.vol j := rfl
+    rw [hamL, (removeStep_frac S0 S1 i _ hstep).2 j k]
+    by_cases hji : j = i
+    · subst hji; rw [if_pos rfl, hvw]
+    · rw [if_neg hji, hvolne j hji]; rfl
+  have hRdAmt : LabAmt Rd2 (Dn2.log (some a.label)) := by
+    intro j wl hj
+    obtain ⟨hndw, haw⟩ := hDw j wl hj
+    refine ⟨hndw, fun k => ?_⟩
+    rw [haw k]
+    have hamL : amount (Dn2.log (some a.label)) j k = amount Dn2 j k := rfl
+    rw [hamL, hDnamt j k, hcarry, hfrac k]
+  refine ⟨?_, ?_⟩
+  · show List.Forall₂ LabAmt st2.labs w1.labs
+    rw [hlabsA, hFlabs]
+    exact forall₂_set (forall₂_set hA a.src hRsAmt) a.dst hRdAmt
+  · intro L hL
+    have hL' : L ∈ w1.labs := hL
+    rw [hFlabs] at hL'
+    exact good_set (good_set hG a.src hS1Lgood) a.dst hDnLgood L hL'
+
+/-- `compileDistribute` is a safe block (C03) that re-establishes the replay/tracking match on success (C01). -/
+theorem safe_compileDistribute {dev : Device} {labs₀ : List Labware} {I} (hwf : WFI I) (cfg : Cfg)
+    (hdev : cfg.dev = dev) (S D : Labware) (a : DistArgs)
+    (hIs : ∃ n, I[a.src]? = some (S.name, S.geom, n)) (hId : ∃ n, I[a.dst]? = some (D.name, D.geom, n))
+    (hok : DistOK dev S D a) : SafeBlock dev labs₀ I (compileDistribute cfg S D a) := by
+  intro w hI hinv
+  obtain ⟨st, hrun, hM⟩ := hinv
+  obtain ⟨h1, h2⟩ := dist_core (labs₀ := labs₀) hwf cfg hdev S D a hIs hId hok w hI st hrun hM
+  exact ⟨h1, fun hs => by obtain ⟨st', ha, hb, _⟩ := h2 hs; exact ⟨st', ha, hb⟩⟩
+
+/-- ... and, for a positive volume, an amount-preserving block (C01, composition clause). -/
+theorem ablock_compileDistribute {dev : Device} {labs₀ : List Labware} {I} (hwf : WFI I) (cfg : Cfg)
+    (hdev : cfg.dev = dev) (S D : Labware) (a : DistArgs)
+    (hIs : ∃ n, I[a.src]? = some (S.name, S.geom, n)) (hId : ∃ n, I[a.dst]? = some (D.name, D.geom, n))
+    (hok : DistOK dev S D a) (hpos : 0 < a.vol.q) : ABlock dev labs₀ I (compileDistribute cfg S D a) := by
+  intro w hI hG hinv hs
+  obtain ⟨st, hrun, hM, hA⟩ := hinv
+  obtain ⟨_, h2⟩ := dist_core (labs₀ := labs₀) hwf cfg hdev S D a hIs hId hok w hI st hrun hM
+  obtain ⟨st', ha, hb, hc⟩ := h2 hs
+  obtain ⟨hA', hG'⟩ := hc hG hA hpos
+  exact ⟨⟨st', ha, hb, hA'⟩, hG'⟩
 
 end Dist
 end Robotools
